@@ -301,6 +301,8 @@ def c10_4(ctx):
 def _iter_order(fn, nid, it, dicts, rd, cfg, depth=0):
     if isinstance(it, ast.Call) and call_name(it) == "sorted":
         return True
+    if isinstance(it, ast.Constant) or (isinstance(it, (ast.Tuple, ast.List)) and it.elts):
+        return True  # a literal has one order (and None cannot be iterated at all): nothing depends on insertion history
     if isinstance(it, ast.Attribute):
         d = dotted(it) or ""
         if d.endswith(".commands") or d in ("self.psbt_ins", "self.psbt_outs"):
